@@ -313,6 +313,13 @@ func getAdditionalImports(protoFile *protogen.File, goPackageForFile map[string]
 func additionalImportsForType(p protogen.GoImportPath, m *protogen.Message, goPackageForFile map[string]string) map[string]string {
 	res := map[string]string{}
 	for _, fld := range m.Fields {
+		if fld.Desc.IsMap() {
+			// the generated code names the Go type of the map's values, not the (same-package) entry message
+			for p, alias := range additionalImportsForType(p, &protogen.Message{Fields: fld.Message.Fields}, goPackageForFile) {
+				res[p] = alias
+			}
+			continue
+		}
 		switch fld.Desc.Kind() {
 		case protoreflect.MessageKind:
 			if ip := fld.Message.GoIdent.GoImportPath; ip != p {
